@@ -6,8 +6,8 @@ import warnings
 from . import formats_common as fc
 from .common import Oracle, Suite, errname, merge
 
-GEN_UNITS = ["B64", "Handlers", "PyUnicode"]
-LEAN_TARGETS = ["PasslibVerif.Props.C07"]
+GEN_UNITS = ["B64", "Handlers", "PyUnicode", "PyCase", "StaticFmt"]
+LEAN_TARGETS = ["PasslibVerif.Props.C07", "PasslibVerif.Props.C07Static"]
 ASSUMPTIONS = [
     "formats without a Lean model yet are explored by the real-code round-trip oracle only (listed under only_correspondence_checked)",
 ]
@@ -28,12 +28,16 @@ def correspond(ctx):
     o_rt = Oracle(ctx, "all-hashers-roundtrip")
     for name in fc.MODELLED:
         h = fc.handler(name)
-        for hs in fc.gen_hashes(name, rng, 8 if not ctx.thorough else 60):
+        for hs in fc.gen_hashes(name, rng, 8 if not ctx.thorough else 60, vary_secret=True):
             for v in fc.variants(h, name, hs, rng):
                 s_fmt.add(f"fmt parse {name} {fc.cps(v)}", lambda v=v: fc.parse_dump(name, v), name + ":parse")
                 s_fmt.add(f"fmt reparse {name} {fc.cps(v)}", lambda v=v: fc.reparse(name, v), name + ":render")
-            for m in fc.mutants(hs, rng, 25 if not ctx.thorough else 200):
+            muts = fc.mutants(hs, rng, 25 if not ctx.thorough else 200) + fc.extra_mutants(name, hs, rng, 12 if not ctx.thorough else 60)
+            for m in muts:
                 s_fmt.add(f"fmt parse {name} {fc.cps(m)}", lambda m=m: fc.parse_dump(name, m), name + ":parse-mutant")
+            if name in fc.IDENTIFY_CHECKED:
+                for m in fc.variants(h, name, hs, rng) + muts:
+                    s_fmt.add(f"fmt identify {name} {fc.cps(m)}", lambda m=m: fc.identify(name, m), name + ":identify")
     # every registered hasher: real-code round trip
     skipped = []
     for name in sorted(registry.list_crypt_handlers()):
